@@ -65,6 +65,7 @@ var (
 	ErrIllegalSlide   = errors.New("illegal slide")
 	ErrNoCapstone     = errors.New("capstone has already been played")
 	ErrIllegalOpening = errors.New("illegal opening move")
+	ErrOffBoard       = errors.New("move is off the board")
 )
 
 func (p *Position) Move(m Move) (*Position, error) {
@@ -106,6 +107,9 @@ func (p *Position) MovePreallocated(m Move, next *Position) (*Position, error) {
 			return nil, ErrIllegalOpening
 		}
 		place = MakePiece(place.Color().Flip(), place.Kind())
+	}
+	if m.X < 0 || m.X >= int8(p.Size()) || m.Y < 0 || m.Y >= int8(p.Size()) {
+		return nil, ErrOffBoard
 	}
 	i := uint(m.X + m.Y*int8(p.Size()))
 	if place != 0 {
